@@ -81,23 +81,33 @@ func between(s, a, b string) string {
 
 func init() {
 	register(Suite{Name: "c13-concurrent", Property: "C13",
-		Rule: "2..64 goroutines send distinct messages through one Client: (a) Send on one shared established connection, (b) DialAndSend with a connection per call; the scripted server adds random latency to vary the schedule; per-connection transcripts are judged for transaction contiguity and envelope/content pairing, every message must be delivered exactly once; run under the race detector; distinct by (mode, goroutines, seed)",
+		Rule: "2..64 goroutines send distinct messages through one Client: (a) Send on one shared established connection, (b) DialAndSend with a connection per call, (c) both at the same time on one Client, with every fourth DialAndSend message refused at end-of-data; the scripted server adds random latency to vary the schedule; per-connection transcripts are judged for transaction contiguity and envelope/content pairing, every message must be delivered exactly once; run under the race detector; distinct by (mode, goroutines, seed)",
 		Run: func(c *Ctx) {
 			rounds := c.N(24, 400)
 			for round := 0; round < rounds; round++ {
 				r := c.Rng
 				n := []int{2, 3, 4, 8, 16, 32, 64}[r.Intn(7)]
-				shared := round%2 == 0
+				mode := round % 3 // 0: Send on the shared connection, 1: DialAndSend per call, 2: both at once, with refusals
+				shared := mode == 0
 				jitter := r.Intn(3)
+				// mixed mode: every DialAndSend message with index = 1 (mod 4) is refused at end-of-data
+				refused := func(i int) bool { return mode == 2 && i%2 == 1 && i%4 == 1 }
 				var mu sync.Mutex
 				var servers []*RefServer
 				dial := func(ctx context.Context, network, address string) (net.Conn, error) {
 					srv := NewRefServer([]string{"8BITMIME", "ENHANCEDSTATUSCODES"}, map[int]SrvAction{})
-					if jitter > 0 {
-						srv.Dynamic = func(pos int, verb, line string) (SrvAction, bool) {
+					cur := -1
+					srv.Dynamic = func(pos int, verb, line string) (SrvAction, bool) {
+						if jitter > 0 {
 							time.Sleep(time.Duration((pos*7919)%(jitter*60)) * time.Microsecond)
-							return SrvAction{}, false
 						}
+						if verb == "MAIL" {
+							_, _ = fmt.Sscanf(line, "MAIL FROM:<sender%d@", &cur)
+						}
+						if verb == "eod" && cur >= 0 && refused(cur) {
+							return SrvAction{Kind: "reply", Code: 554, Text: "5.6.0 content refused"}, true
+						}
+						return SrvAction{}, false
 					}
 					mu.Lock()
 					servers = append(servers, srv)
@@ -109,14 +119,14 @@ func init() {
 					c.Note("config: %v", err)
 					continue
 				}
-				in := map[string]interface{}{"goroutines": n, "shared_connection": shared, "jitter": jitter}
+				in := map[string]interface{}{"goroutines": n, "mode": []string{"Send on a shared connection", "DialAndSend per call", "Send on the shared connection and DialAndSend (some refused at end-of-data) at the same time"}[mode], "jitter": jitter}
 				msgs := make([]*mail.Msg, n)
 				for i := range msgs {
 					msgs[i] = c13Msg(i)
 				}
 				errs := make([]error, n)
 				var wg sync.WaitGroup
-				if shared {
+				if shared || mode == 2 {
 					if err := client.DialWithContext(context.Background()); err != nil {
 						c.Violate("c13-dial", err.Error(), in)
 						continue
@@ -128,7 +138,7 @@ func init() {
 					go func(i int) {
 						defer wg.Done()
 						<-start
-						if shared {
+						if shared || (mode == 2 && i%2 == 0) {
 							errs[i] = client.Send(msgs[i])
 						} else {
 							errs[i] = client.DialAndSend(msgs[i])
@@ -137,7 +147,7 @@ func init() {
 				}
 				close(start)
 				wg.Wait()
-				if shared {
+				if shared || mode == 2 {
 					_ = client.Close()
 				}
 				c.rep.OracleChecked++
@@ -152,6 +162,13 @@ func init() {
 				}
 				mu.Unlock()
 				for i := 0; i < n; i++ {
+					if refused(i) {
+						// refused at end-of-data: an error for exactly this message, nothing delivered, nobody else disturbed
+						if errs[i] == nil || msgs[i].IsDelivered() {
+							c.Violate("c13-refusal-lost", fmt.Sprintf("message %d was refused at end-of-data but the call returned %v, delivered=%v", i, errs[i], msgs[i].IsDelivered()), in)
+						}
+						continue
+					}
 					if errs[i] != nil {
 						c.Violate("c13-send-error", fmt.Sprintf("goroutine %d: %v", i, errs[i]), in)
 					}
@@ -162,7 +179,7 @@ func init() {
 						c.Violate("c13-not-delivered", fmt.Sprintf("message %d not marked delivered", i), in)
 					}
 				}
-				c.Count(true, fmt.Sprintf("%v-%d-%d-%d", shared, n, jitter, round), fmt.Sprintf("shared=%v:n=%d", shared, n))
+				c.Count(true, fmt.Sprintf("%d-%d-%d-%d", mode, n, jitter, round), fmt.Sprintf("mode=%d:n=%d", mode, n))
 				c.Sample(in)
 			}
 		}})
